@@ -802,6 +802,22 @@ int simk_pthread_mutex_lock(pthread_mutex_t *m)
 	lock_acquire(m);
 	r = pthread_mutex_lock(m);
 	lock_obs(m, 1, 0);
+	/* a thread can lose the CPU while it holds a lock: let the others run against the held lock
+	 * (they block on it, or see a trylock fail) */
+	simk_yield();
+	return r;
+}
+int simk_pthread_mutex_trylock(pthread_mutex_t *m)
+{
+	int k, r;
+	simk_yield();
+	k = lk_find(m, 1);
+	if (lk[k].owner >= 0)
+		return EBUSY;
+	lk[k].owner = me;
+	r = pthread_mutex_trylock(m);
+	lock_obs(m, 1, 0);
+	simk_yield();
 	return r;
 }
 int simk_pthread_mutex_unlock(pthread_mutex_t *m)
@@ -824,6 +840,7 @@ int simk_pthread_spin_lock(pthread_spinlock_t *l)
 	lock_acquire((void *)l);
 	r = pthread_spin_lock(l);
 	lock_obs((void *)l, 1, 1);
+	simk_yield();
 	return r;
 }
 int simk_pthread_spin_trylock(pthread_spinlock_t *l)
